@@ -84,6 +84,25 @@ package chord
 //@   opt recursion=lookup
 //@   decreases dist48(v.ID() + 1, key)
 //@   ensures non-nil-result: err == nil ==> r != nil
+//@   ensures owner-on-stable-ring: (stableRing() && mem(v.ID()) && err == nil) ==> r.ID() == ownerOf(key)
 
 // the errors a caller may retry (the registry itself is checked under C14)
 //@ spec retryableChord(e error) bool = e == ErrJoinInvalidState || e == ErrJoinTransferFailure || e == ErrJoinInvalidSuccessor || e == ErrLeaveInvalidState || e == ErrLeaveTransferFailure || e == ErrKVStaleOwnership || e == ErrKVPendingTransfer
+
+// ---- C01: ghost ring. mem(id): id is a member; ownerOf(key): the member at minimal clockwise
+// distance from key (the first member at or after key); stableRing(): every member's local
+// pointers are correct for this membership (unfolded per node as localOK in package chord).
+//@ spec mem(id uint64) bool
+//@ spec ownerOf(key uint64) uint64
+//@ spec stableRing() bool
+//@ axiom ring.owner-is-member: forall k uint64 :: k < 1<<48 ==> (mem(ownerOf(k)) && ownerOf(k) < 1<<48)
+//@ axiom ring.owner-is-closest: forall k, m uint64 :: (k < 1<<48 && m < 1<<48 && mem(m)) ==> dist48(k, ownerOf(k)) <= dist48(k, m)
+
+// ring arithmetic lemmas (proved with the definitions of dist48/between48 revealed, pure 64-bit vectors);
+// functions that use them hide the definitions (opt opaque=dist48,between48)
+//@ lemma bv_ring_owner_is_self: forall pre, n, key, o uint64 :: (pre < 1<<48 && n < 1<<48 && key < 1<<48 && o < 1<<48 && between48(pre, key, n, true) && !between48(pre, o, n, false) && dist48(key, o) <= dist48(key, n)) ==> o == n
+//@ lemma bv_ring_owner_is_successor_ne: forall n, key, s, o uint64 :: (n != s && n < 1<<48 && key < 1<<48 && s < 1<<48 && o < 1<<48 && between48(n, key, s, true) && dist48((n + 1) & (1<<48 - 1), s) <= dist48((n + 1) & (1<<48 - 1), o) && dist48(key, o) <= dist48(key, s)) ==> o == s
+//@ lemma bv_ring_owner_is_successor_eq: forall n, key, s, o uint64 :: (n == s && n < 1<<48 && key < 1<<48 && s < 1<<48 && o < 1<<48 && between48(n, key, s, true) && dist48((n + 1) & (1<<48 - 1), s) <= dist48((n + 1) & (1<<48 - 1), o) && dist48(key, o) <= dist48(key, s)) ==> o == s
+//@ lemma bv_ring_next_id: forall n uint64 :: ((n + 1) & (1<<48 - 1)) < 1<<48
+//@ lemma bv_ring_hop_decreases: forall n, f, key uint64 :: (n < 1<<48 && f < 1<<48 && key < 1<<48 && between48(n, f, key, false)) ==> dist48(f + 1, key) < dist48(n + 1, key)
+//@ lemma bv_ring_successor_hop_decreases: forall n, s, key uint64 :: (n < 1<<48 && s < 1<<48 && key < 1<<48 && !between48(n, key, s, true)) ==> dist48(s + 1, key) < dist48(n + 1, key)
